@@ -777,7 +777,7 @@ func (P) Gen(r *core.Rand, tier string, emit func([]string)) {
 	// beyond the proxy's write buffer; the connection's own buckets drain every 10 ms, so "at least the configured
 	// delay" of a throttled body is a wall-clock lower bound of tenths of a second
 	for i := 0; i < nTimed; i++ {
-		bw := r.Range(300, 600)
+		bw := r.Range(300, 500)
 		k := []int{0, r.Intn(300), r.Range(1000, 2000)}[r.Intn(3)]
 		thr := fmt.Sprintf("%s/%d", core.HexS(fmt.Sprintf("%d-", k)), bw)
 		if k > 600 && r.Bool() {
@@ -789,11 +789,11 @@ func (P) Gen(r *core.Rand, tier string, emit func([]string)) {
 		}
 		id := r.Pick("a", "b", "c")
 		ops := []string{fmt.Sprintf("config d:none s:%s:0:%s:%s:-", id, thr, halts), "dial c0 - 10"}
-		ops = append(ops, fmt.Sprintf("req c0 %s - %d", id, k+r.Range(5000, 8000)))
+		ops = append(ops, fmt.Sprintf("req c0 %s - %d", id, k+r.Range(8000, 12000)))
 		if r.Bool() {
 			ops = append(ops, fmt.Sprintf("req c0 n - %d", r.Range(4000, 9000))) // the unmatched URL is not slowed down... nor sped up
 		}
-		ops = append(ops, "dial c1 - 10", fmt.Sprintf("req c1 %s %d %d%s", id, k+r.Range(1, 3000), r.Range(5000, 8000), r.Pick("", "", " c", " h10")))
+		ops = append(ops, "dial c1 - 10", fmt.Sprintf("req c1 %s %d %d%s", id, k+r.Range(1, 3000), r.Range(8000, 12000), r.Pick("", "", " c", " h10")))
 		ops = append(ops, "leak")
 		emit(ops)
 	}
